@@ -66,6 +66,10 @@ func vNext(kind string) *vScriptVal {
 		vPos++
 	}
 	if vPos >= len(vCur.Script) {
+		if len(vRes.Failures) > 0 {
+			// the script of a counter-example ends where the violated assertion was; nothing more to check
+			panic(vCutSignal{"script ended after the reported failure"})
+		}
 		panic(vDivergence{fmt.Sprintf("script exhausted at request #%d for %s", vPos, kind)})
 	}
 	s := &vCur.Script[vPos]
@@ -215,3 +219,7 @@ func vRunReplays(entries map[string]func()) {
 		fmt.Println("VERIF-REPLAY-RESULT " + string(out))
 	}
 }
+
+// uninterpreted functions have no native counterpart: entries that use them cannot be replayed natively
+func vUF1(name string, x float64) float64    { panic(vDivergence{"uninterpreted function " + name + " has no native counterpart"}) }
+func vUF2(name string, x, y float64) float64 { panic(vDivergence{"uninterpreted function " + name + " has no native counterpart"}) }
